@@ -34,6 +34,17 @@ pub struct Error {
 }
 
 impl Error {
+    /// A diagnostic attached to the text matched by `pair`.
+    pub(crate) fn at(pair: &Pair<Rule>, message: impl Into<String>) -> Self {
+        let span = pair.as_span();
+
+        Error {
+            message: message.into(),
+            src: span.get_input().to_string(),
+            span: span.into(),
+        }
+    }
+
     /// Builds the diagnostic for a pest error raised while parsing `input`. The label is an
     /// offset into the whole input, so the whole input is what the diagnostic carries.
     fn from_pest(error: pest::error::Error<Rule>, input: &str) -> Self {
@@ -1108,7 +1119,12 @@ impl AstNode for MapConstructor {
 
 impl DataExpr {
     fn number_parse(pair: Pair<Rule>) -> Result<Self, Error> {
-        Ok(DataExpr::Number(pair.as_str().parse().unwrap()))
+        let value = pair
+            .as_str()
+            .parse()
+            .map_err(|_| Error::at(&pair, "integer literal out of range"))?;
+
+        Ok(DataExpr::Number(value))
     }
 
     fn bool_parse(pair: Pair<Rule>) -> Result<Self, Error> {
